@@ -301,8 +301,76 @@ def run_rlimit(acc, shard):
             c.close()
 
 
+def run_sinks(acc):
+    """Against the simulated kernel: what reaches the syscall wrappers. Every valid request produces exactly one sink
+    event carrying exactly the requested pid and value; every invalid request produces none."""
+    from vlib import histories, psu
+    ps = psu.load()
+    reqs = []
+    for v in range(-20, 20):
+        reqs.append(("nice", v, ["setpriority", v], None))
+    for k, v in [(0, None), (0, 0), (3, None), (3, 0)] + [(k, v) for k in (1, 2) for v in list(range(8)) + [None]]:
+        reqs.append(("ionice", [k, v], ["ioprio_set", [k, v or 0]], None))
+    for k, v in [(k, v) for k in (1, 2) for v in (-1, 8, 100)] + [(k, v) for k in (0, 3) for v in (1, 7)]:
+        reqs.append(("ionice", [k, v], None, "ValueError"))
+    for mask in range(1, 16):
+        cpus = [i for i in range(4) if mask >> i & 1]
+        reqs.append(("affinity", cpus, ["affinity_set", cpus], None))
+        reqs.append(("affinity", cpus + cpus[:1], ["affinity_set", cpus], None))
+    for res in range(16):
+        for lim in ([0, 0], [5, 10], [2**63 - 1, 2**63 - 1], [-1, -1]):
+            reqs.append(("rlimit", [res, lim], ["prlimit_set", [res, lim]], None))
+        for bad in ([], [1], [1, 2, 3]):
+            reqs.append(("rlimit", [res, bad], None, "ValueError"))
+    for kind, value, want_ev, want_exc in reqs:
+        w = histories.World(ps)
+        viols = []
+        with w:
+            w.apply(("spawn", 7, False))
+            w.apply(("spawn", 8, False))
+            w.apply(("new", 7))
+            p = w.handles[0].obj
+            ev0 = len(w.vk.events)
+            try:
+                if kind == "nice":
+                    p.nice(value)
+                elif kind == "ionice":
+                    p.ionice(value[0], value[1])
+                elif kind == "affinity":
+                    p.cpu_affinity(list(value))
+                else:
+                    p.rlimit(value[0], tuple(value[1]))
+                exc = None
+            except Exception as e:  # noqa: BLE001
+                exc = type(e).__name__
+            evs = [list(e) for e in w.vk.events[ev0:] if not (e[0] == "kill" and e[2] == 0)]
+            norm = []
+            for e in evs:
+                a = e[2]
+                if isinstance(a, tuple):
+                    a = [list(x) if isinstance(x, tuple) else x for x in a]
+                if e[0] == "affinity_set":
+                    a = sorted(set(a))
+                norm.append([e[0], e[1], a])
+            acc.count("sink_requests_checked")
+            case = dict(kind="sink_" + kind, value=value)
+            if want_exc:
+                acc.count("invalid_requests_checked")
+                if exc != want_exc:
+                    viols.append((f"sink_invalid_request_not_{want_exc}:{kind}", f"{kind}({value}) -> {exc}"))
+                if norm:
+                    viols.append((f"sink_invalid_request_reached_kernel:{kind}", f"{kind}({value}) -> events {norm}"))
+            else:
+                want = [want_ev[0], 7, want_ev[1]]
+                if exc is not None:
+                    viols.append((f"sink_valid_request_raised:{kind}", f"{kind}({value}) -> {exc}"))
+                elif norm != [want]:
+                    viols.append((f"sink_wrong_syscall_arguments:{kind}", f"{kind}({value}) -> events {norm} want {[want]}"))
+        acc.case(case, True, viols, key=harness.chash([kind, value]))
+
+
 def plan(tier, seed):
-    shards = [dict(kind="nice"), dict(kind="ionice"), dict(kind="rlimit")]
+    shards = [dict(kind="nice"), dict(kind="ionice"), dict(kind="rlimit"), dict(kind="sinks")]
     nparts = 4 if tier == "quick" else 12
     for i in range(nparts):
         shards.append(dict(kind="affinity", seed=seed, part=i, nrand=400 if tier == "quick" else 6000))
@@ -337,10 +405,15 @@ def run_shard(shard):
         run_affinity(acc, shard)
     elif k == "rlimit":
         run_rlimit(acc, shard)
+    elif k == "sinks":
+        run_sinks(acc)
+        acc.exhaustive = True
     elif k == "cases":
         for case in shard["cases"]:
             kind = case.get("kind", "")
-            if kind.startswith("nice"):
+            if kind.startswith("sink_"):
+                run_sinks(acc)
+            elif kind.startswith("nice"):
                 run_nice(acc, [case["value"]])
             elif kind.startswith("ionice"):
                 run_ionice(acc)
@@ -348,5 +421,7 @@ def run_shard(shard):
                 run_affinity(acc, dict(seed=0, part=0, nrand=20))
             elif kind.startswith("rlimit"):
                 run_rlimit(acc, {})
+            elif kind.startswith("sink_"):
+                run_sinks(acc)
     harness.mark_current(None)
     return acc.result()
